@@ -10,8 +10,8 @@ Units: `<cls>_<ova|ovo>` (return_grad=False) : Arr α                  — the s
        `<cls>_<ova|ovo>_grad` (return_grad=True) : Arr α × Arr α        — (score, gradient),
 for cls in kl, tv, hellinger, chi2, mmd; parameters, in this FIXED order: `(epsilon : α) (y_pred affinity : Arr α)`
 (`self.epsilon`, then the arguments of `evaluate`; the f-divergences never read `affinity`).
-NOT translated: `tv_ovo`, `tv_ovo_grad` (N×K×K tensors: `np.expand_dims`, `np.repeat`, batched `@`, `axes=[0, 2, 1]`) —
-those two stay tied by the differential check only (NOT_TRANSLATED below).
+All 20 units are translated (NOT_TRANSLATED below is empty; an entry there would leave a pair of units to the differential
+check only).  WassersteinGEMINI (Python loops, `ot.emd2`) is outside the scope of this translator.
 
 Modelling conventions (see also Np2.lean):
   * `y_pred` and `affinity` are 2-D arrays; the number of dimensions of every other value follows statically.  A 0-d
@@ -26,7 +26,12 @@ Modelling conventions (see also Np2.lean):
     `x[mask] = s`, `x[:, mask] = s`) are accepted only on a variable that owns a fresh array (no parameter, no view,
     not viewed by another name) and are checked to keep the shape (`Arr.inPlace`).
   * The returned arrays are wrapped in `Arr.checked flags`, `flags` = conjunction of the `ok` of every array bound on
-    the executed path: a NumPy shape error ANYWHERE makes the result not `Eqv` to anything.
+    the executed path: a NumPy shape error ANYWHERE makes the result not `Eqv` to anything.  `flags` also holds
+    `(N != 0)` for every division `x / N` between PYTHON scalars by a shape entry (`1 / N` raises ZeroDivisionError
+    for an empty batch, where NumPy arrays would only warn).
+  * 3-D arrays (one-vs-one TV) are `Arr3 α` values: `np.expand_dims`, `np.repeat(x, n, axis=0)`, batched `@`,
+    `np.transpose(x, axes=[0, 2, 1])`, `+ - * /`, `np.sign`, `np.abs`, `/ scalar`, `.mean(0)` / `.sum(0)`,
+    `np.squeeze(x, axis=1|2)`; a 2-D array meeting a 3-D one is broadcast as `(1, r, c)`.
 
 Accepted: straight-line code of assignments / augmented assignments / the two masked assignments above / `return`,
 `if self.ovo:` and `if return_grad:` (with optional `else`), doc-strings, `pass`; expressions: `+ - * /` (arrays with
@@ -34,7 +39,7 @@ broadcasting, scalars), unary `-`/`+`, `@`, `np.dot`, `np.matmul`, `.dot`, `.T`,
 `&`, comparisons `array > s`, `array < s`, `s < array`, `s > array`, `array == s`; `np.clip(x, lo, hi)` (also `a_min=`,
 `a_max=`), `np.log`, `np.sqrt`, `np.abs`/`np.absolute`, `np.sign`, `np.square`, `np.maximum(x, 0)`, `np.sum`/`np.mean`/
 `.sum`/`.mean` with `axis` in {None, 0, 1, -1, -2} and literal `keepdims`, `np.eye(n)`, `len(x)`, `x.shape[i]`, `np.diag`,
-`.reshape((1, -1))`, `.reshape((-1, 1))` (of 1-D arrays), `.squeeze()`, `.copy()`.
+`.reshape((1, -1))`, `.reshape((-1, 1))` (of 1-D arrays), `.squeeze()`, `.copy()`, and the 3-D operations listed above.
 Anything else raises TranslationFailure: the tie is then reported broken.
 """
 import ast
@@ -47,7 +52,7 @@ FILES = ["gemclus/gemini/_fdivergences.py", "gemclus/gemini/_geomdistances.py"]
 CLASSES = [("kl", "KLGEMINI"), ("tv", "TVGEMINI"), ("hellinger", "HellingerGEMINI"), ("chi2", "ChiSquareGEMINI"),
            ("mmd", "MMDGEMINI")]
 # (short class name, ovo) -> why the pair of units is left to the differential check
-NOT_TRANSLATED = {("tv", True): "3-D tensors (np.expand_dims, np.repeat, batched @, transpose with axes)"}
+NOT_TRANSLATED = {}
 SCALAR_ATTRS = {"epsilon"}
 FLAG_ATTR = "ovo"
 ARGS = ["y_pred", "affinity", "return_grad"]
@@ -68,8 +73,9 @@ class Val:
     'tuple' (term = list of Val).  `fresh`: a newly allocated array nobody else refers to; `roots`: the variables whose
     memory the value may share (views)."""
 
-    def __init__(self, kind, term, nd=None, fresh=False, roots=()):
+    def __init__(self, kind, term, nd=None, fresh=False, roots=(), lit=None):
         self.kind, self.term, self.nd, self.fresh, self.roots = kind, term, nd, fresh, frozenset(roots)
+        self.lit = lit                    # the value of a literal scalar
 
 
 class Returned(Exception):
@@ -95,6 +101,7 @@ class Unit:
         self.used = set()                 # Lean names in use
         self.lets = []                    # (lean name, term)
         self.oks = []                     # Lean names of bound arrays / masks
+        self.checks = []                  # Boolean Lean terms: conditions under which Python itself does not raise
         self.env = {}                     # python name -> Val
         self.aliased = set()              # python names whose array is (or may be) shared
         self.result = None
@@ -130,11 +137,19 @@ class Unit:
     def describe(self, v):
         return f"{v.nd}-d {'Boolean ' if v.kind == 'mask' else ''}array" if v.kind in ("arr", "mask") else v.kind
 
-    def arr(self, v, node, what, nd=None):
-        if v.kind != "arr" or (nd is not None and v.nd not in (nd if isinstance(nd, tuple) else (nd,))):
-            want = "" if nd is None else f"{nd}-d "
-            self.fail(f"{what}: expected a {want}float array, got {self.describe(v)}", node)
+    def arr(self, v, node, what, nd=(0, 1, 2)):
+        """`v` must be a float array with `nd` dimensions (default: at most 2; 3-D arrays live in `Arr3`)"""
+        if v.kind != "arr" or v.nd not in (nd if isinstance(nd, tuple) else (nd,)):
+            self.fail(f"{what}: expected a float array with {nd} dimension(s), got {self.describe(v)}", node)
         return v
+
+    def lift3(self, v):
+        """NumPy broadcasts a 2-D array against a 3-D one as `(1, r, c)`"""
+        if v.nd == 3:
+            return v.term
+        if v.nd == 2:
+            return f"(Arr3.expandFirst {v.term})"
+        return None
 
     def literal_int(self, e):
         if isinstance(e, ast.UnaryOp) and isinstance(e.op, ast.USub) and isinstance(e.operand, ast.Constant) \
@@ -160,18 +175,38 @@ class Unit:
         if r.kind == "mask":
             r = Val("arr", f"(Arr.ofMask {r.term})", r.nd, True)
         if l.kind == "arr" and r.kind == "arr":
+            if max(l.nd, r.nd) == 3:
+                a, b = self.lift3(l), self.lift3(r)
+                if a is None or b is None:
+                    self.fail(f"{sym} between a {l.nd}-d and a {r.nd}-d array", node)
+                return Val("arr", f"(Arr3.{fn} {a} {b})", 3, True)
             return Val("arr", f"(Arr.{fn} {l.term} {r.term})", max(l.nd, r.nd), True)
         if l.kind in ("scal", "nat") and r.kind in ("scal", "nat"):
+            if fn == "div":
+                # Python scalars: `x / 0` raises ZeroDivisionError (NumPy arrays only warn)
+                if r.kind == "nat":
+                    self.checks.append(f"({r.term} != 0)")
+                elif not r.lit:
+                    self.fail("division of Python scalars by something that is neither a shape entry nor a non-zero "
+                              "literal (a ZeroDivisionError cannot be ruled in or out)", node)
             return Val("scal", f"({self.scal(l, node, sym)} {sym} {self.scal(r, node, sym)})")
         if l.kind == "arr" and r.kind in ("scal", "nat"):
-            return Val("arr", f"(Arr.{ARR_SCAL[fn]} {l.term} {self.scal(r, node, sym)})", l.nd, True)
+            if l.nd == 3 and fn not in ("mul", "div"):
+                self.fail(f"3-d array {sym} scalar", node)
+            ns = "Arr3" if l.nd == 3 else "Arr"
+            return Val("arr", f"({ns}.{ARR_SCAL[fn]} {l.term} {self.scal(r, node, sym)})", l.nd, True)
         if l.kind in ("scal", "nat") and r.kind == "arr":
-            return Val("arr", f"(Arr.{SCAL_ARR[fn]} {self.scal(l, node, sym)} {r.term})", r.nd, True)
+            if r.nd == 3 and fn != "mul":
+                self.fail(f"scalar {sym} 3-d array", node)
+            ns = "Arr3" if r.nd == 3 else "Arr"
+            return Val("arr", f"({ns}.{SCAL_ARR[fn]} {self.scal(l, node, sym)} {r.term})", r.nd, True)
         self.fail(f"unsupported operands for {sym}: {self.describe(l)}, {self.describe(r)}", node)
 
     def matmul(self, a, b, node, what):
-        self.arr(a, node, what)
-        self.arr(b, node, what)
+        self.arr(a, node, what, (1, 2, 3))
+        self.arr(b, node, what, (1, 2, 3))
+        if max(a.nd, b.nd) == 3 and min(a.nd, b.nd) >= 2:
+            return Val("arr", f"(Arr3.matmul {self.lift3(a)} {self.lift3(b)})", 3, True)
         if a.nd == 2 and b.nd == 2:
             return Val("arr", f"(Arr.matmul {a.term} {b.term})", 2, True)
         if a.nd == 2 and b.nd == 1:
@@ -182,11 +217,11 @@ class Unit:
         if isinstance(e, ast.Constant):
             v = e.value
             if type(v) is float and v == 0.5:
-                return Val("scal", "half")
+                return Val("scal", "half", lit=v)
             if type(v) is float and v >= 0 and v == int(v) and v < 2 ** 53:
                 v = int(v)
             if type(v) is int and v >= 0:
-                return Val("scal", {0: "0", 1: "1"}.get(v, f"(nat {v})"))
+                return Val("scal", {0: "0", 1: "1"}.get(v, f"(nat {v})"), lit=v)
             self.fail(f"unsupported literal {v!r}", e)
         if isinstance(e, ast.Name):
             if e.id in self.env:
@@ -209,7 +244,7 @@ class Unit:
             if isinstance(e.op, ast.UAdd) and a.kind in ("arr", "scal"):
                 return Val(a.kind, a.term, a.nd, a.kind == "arr")
             if isinstance(e.op, ast.USub) and a.kind == "arr":
-                return Val("arr", f"(Arr.neg {a.term})", a.nd, True)
+                return Val("arr", f"({'Arr3' if a.nd == 3 else 'Arr'}.neg {a.term})", a.nd, True)
             if isinstance(e.op, ast.USub) and a.kind in ("scal", "nat"):
                 return Val("scal", f"(-{self.scal(a, e, 'unary -')})")
             self.fail(f"unsupported unary operator {type(e.op).__name__} on {self.describe(a)}", e)
@@ -258,6 +293,8 @@ class Unit:
         self.fail(f"unsupported expression {type(e).__name__}", e)
 
     def dim(self, a, i, node):
+        if a.nd == 3 and i in (0, 1, 2, -1, -2, -3):
+            return f"{a.term}.d{i % 3}"
         if a.nd == 2 and i in (0, -2):
             return f"{a.term}.r"
         if (a.nd == 2 and i in (1, -1)) or (a.nd == 1 and i in (0, -1)):
@@ -297,8 +334,10 @@ class Unit:
 
     def reduce(self, kind, a, call, pos):
         """kind in {'sum', 'mean'}"""
-        self.arr(a, call, kind)
+        self.arr(a, call, kind, (1, 2, 3))
         axis, keep = self.reduce_args(call, pos, kind)
+        if a.nd == 3 and axis in (0, -3) and not keep:
+            return Val("arr", f"(Arr3.{kind}Axis0 {a.term})", 2, True)
         if a.nd == 2:
             if axis is None:
                 if keep:
@@ -323,6 +362,29 @@ class Unit:
             return Val("arr", f"(Arr.reshapeCol {a.term})", 2, False, a.roots)
         self.fail("reshape: only (1, -1) and (-1, 1)", call)
 
+    def axis_kw(self, call, pos, what):
+        """the literal `axis` of expand_dims / repeat / squeeze (positional or keyword), None when absent"""
+        vals = list(pos) + [k.value for k in call.keywords if k.arg == "axis"]
+        if len(vals) > 1 or len(pos) > 1 or any(k.arg != "axis" for k in call.keywords):
+            self.fail(f"{what}: unsupported arguments", call)
+        if not vals:
+            return None
+        ax = self.literal_int(vals[0])
+        if ax is None:
+            self.fail(f"{what}: the axis must be a literal integer", call)
+        return ax
+
+    def squeeze(self, a, call, pos):
+        self.arr(a, call, "squeeze", (1, 2, 3))
+        ax = self.axis_kw(call, pos, "squeeze")
+        if a.nd in (1, 2) and ax is None:
+            return Val("arr", f"(Arr.squeeze0 {a.term})", 0, False, a.roots)
+        if a.nd == 3 and ax in (1, -2):
+            return Val("arr", f"(Arr3.squeeze1 {a.term})", 2, False, a.roots)
+        if a.nd == 3 and ax in (2, -1):
+            return Val("arr", f"(Arr3.squeeze2 {a.term})", 2, False, a.roots)
+        self.fail(f"squeeze(axis={ax}) of a {a.nd}-d array", call)
+
     def call(self, e):
         f = e.func
         nokw = not e.keywords
@@ -344,8 +406,36 @@ class Unit:
             lo, hi = self.scal(self.expr(lo), e, "np.clip"), self.scal(self.expr(hi), e, "np.clip")
             return Val("arr", f"(Arr.clip {a.term} {lo} {hi})", a.nd, True)
         if self.is_np(f, set(UNARY_NP)) and n == 1 and nokw:
-            a = self.arr(self.expr(e.args[0]), e, "np." + f.attr)
-            return Val("arr", f"(Arr.{UNARY_NP[f.attr]} {a.term})", a.nd, True)
+            fn = UNARY_NP[f.attr]
+            a = self.arr(self.expr(e.args[0]), e, "np." + f.attr, (0, 1, 2, 3) if fn in ("sign", "abs") else (0, 1, 2))
+            return Val("arr", f"({'Arr3' if a.nd == 3 else 'Arr'}.{fn} {a.term})", a.nd, True)
+        if self.is_np(f, {"expand_dims"}) and n >= 1:
+            a = self.arr(self.expr(e.args[0]), e, "np.expand_dims", (1, 2))
+            ax = self.axis_kw(e, e.args[1:], "np.expand_dims")
+            if a.nd == 1 and ax in (0, -2):
+                return Val("arr", f"(Arr.reshapeRow {a.term})", 2, False, a.roots)
+            if a.nd == 1 and ax in (1, -1):
+                return Val("arr", f"(Arr.reshapeCol {a.term})", 2, False, a.roots)
+            if a.nd == 2 and ax in (0, 1, 2, -1, -2, -3):
+                fn = ["expandFirst", "expandMid", "expandLast"][ax % 3]
+                return Val("arr", f"(Arr3.{fn} {a.term})", 3, False, a.roots)
+            self.fail(f"np.expand_dims(axis={ax}) of a {a.nd}-d array", e)
+        if self.is_np(f, {"repeat"}) and n >= 2:
+            a = self.arr(self.expr(e.args[0]), e, "np.repeat", 2)
+            m = self.expr(e.args[1])
+            ax = self.axis_kw(e, e.args[2:], "np.repeat")
+            if m.kind != "nat" or ax not in (0, -2):
+                self.fail("np.repeat: only np.repeat(2-d array, <shape entry>, axis=0)", e)
+            return Val("arr", f"(Arr.repeat0 {a.term} {m.term})", 2, True)
+        if self.is_np(f, {"squeeze"}) and n >= 1:
+            return self.squeeze(self.expr(e.args[0]), e, e.args[1:])
+        if self.is_np(f, {"transpose"}) and (n == 2 or (n == 1 and [k.arg for k in e.keywords] == ["axes"])):
+            a = self.arr(self.expr(e.args[0]), e, "np.transpose", 3)
+            axes = e.args[1] if n == 2 else e.keywords[0].value
+            if not (n + len(e.keywords) == 2 and isinstance(axes, (ast.List, ast.Tuple))
+                    and [self.literal_int(x) for x in axes.elts] == [0, 2, 1]):
+                self.fail("np.transpose of a 3-d array: only axes=[0, 2, 1]", e)
+            return Val("arr", f"(Arr3.transpose021 {a.term})", 3, False, a.roots)
         if self.is_np(f, {"maximum"}):
             if n != 2 or not nokw or not self.zero(e.args[1]):
                 self.fail("np.maximum: only np.maximum(array, 0)", e)
@@ -387,9 +477,8 @@ class Unit:
                 return Val("arr", a.term, a.nd, True)
             if m == "reshape" and n >= 1 and nokw:
                 return self.reshape(self.expr(f.value), e, e.args)
-            if m == "squeeze" and n == 0 and nokw:
-                a = self.arr(self.expr(f.value), e, ".squeeze()", (1, 2))
-                return Val("arr", f"(Arr.squeeze0 {a.term})", 0, False, a.roots)
+            if m == "squeeze":
+                return self.squeeze(self.expr(f.value), e, e.args)
         self.fail(f"unsupported call {ast.unparse(f)}(…)", e)
 
     # ------------------------------------------------------------ statements
@@ -436,6 +525,8 @@ class Unit:
                 return
             if isinstance(t, ast.Subscript) and isinstance(t.value, ast.Name):
                 cur = self.owned(t.value.id, st, "masked assignment")
+                if cur.nd == 3:
+                    self.fail("masked assignment into a 3-d array", st)
                 s = self.scal(self.expr(st.value), st, "masked assignment")
                 sl = t.slice
                 if isinstance(sl, ast.Tuple) and len(sl.elts) == 2 and isinstance(sl.elts[0], ast.Slice) \
@@ -457,6 +548,8 @@ class Unit:
                 self.fail("unsupported augmented assignment target", st)
             name = st.target.id
             cur = self.owned(name, st, "in-place update")
+            if cur.nd == 3:
+                self.fail("in-place update of a 3-d array", st)
             rhs = self.expr(st.value)
             v = self.binop(st.op, Val("arr", cur.term, cur.nd), rhs, st)
             if v.kind != "arr" or v.nd != cur.nd:
@@ -513,7 +606,7 @@ class Unit:
 
     # ------------------------------------------------------------ emission
     def emit(self):
-        flags = " && ".join(f"{n}.ok" for n in self.oks) or "true"
+        flags = " && ".join(self.checks + [f"{n}.ok" for n in self.oks]) or "true"
         ls = [f"  let {n} := {t}" for n, t in self.lets]
         outs = [f"(Arr.checked flags {v.term})" for v in self.result]
         fin = outs[0] if len(outs) == 1 else "(" + ", ".join(outs) + ")"
